@@ -596,17 +596,52 @@ def rule_v3(ck, prog, S):
     regname = {v: k for k, v in regenum["consts"].items()}
     n = 0
     found = {}
+    # effective lowering sites: (function that owns the operation, register, [(function, call node)...] down to the register
+    # write).  A static helper that writes the register named by one of its parameters is judged at its call sites: the
+    # caller that supplies the constant owns the operation (one or two levels of helpers).
+    def leaf_sites(f):
+        return K.ordinal_sites(list(f.calls("SCPI_RegSet")) + list(f.calls("SCPI_RegClearBits")))
+
+    def param_index(f, expr):
+        e = expr.strip_all_casts()
+        if e.k == "DeclRefExpr" and e["decl"]["kind"] == "param":
+            for i, p_ in enumerate(f.params):
+                if p_["name"] == e["decl"]["name"]:
+                    return i
+        return None
+    effective = []
     for f in sorted(prog.functions.values(), key=lambda f: (f.relfile, f.line)):
-        for call in K.ordinal_sites(list(f.calls("SCPI_RegSet")) + list(f.calls("SCPI_RegClearBits"))):
+        for call in leaf_sites(f):
             a = C.call_args(call)
             if len(a) != 3:
                 continue
-            reg = C.const_of(a[1])
-            if f.name in ("SCPI_RegSetBits", "SCPI_RegClearBits") and reg is None:
+            pi = param_index(f, a[1])
+            if pi is not None and f.static and f.name not in ("SCPI_RegSet", "SCPI_RegSetBits", "SCPI_RegClearBits"):
+                for g, c in prog.callers(f.name):
+                    ca = C.call_args(c)
+                    if pi < len(ca) and C.const_of(ca[pi]) is not None:
+                        effective.append((g, C.const_of(ca[pi]), [(g, c), (f, call)]))
+                    elif pi < len(ca) and g.static and param_index(g, ca[pi]) is not None:
+                        pj = param_index(g, ca[pi])
+                        for g2, c2 in prog.callers(g.name):
+                            ca2 = C.call_args(c2)
+                            if pj < len(ca2) and C.const_of(ca2[pj]) is not None:
+                                effective.append((g2, C.const_of(ca2[pj]), [(g2, c2), (g, c), (f, call)]))
+                            else:
+                                effective.append((g2, None, [(g2, c2), (g, c), (f, call)]))
+                    else:
+                        effective.append((g, None, [(g, c), (f, call)]))
+                continue
+            effective.append((f, C.const_of(a[1]), [(f, call)]))
+    for f, reg, chain in effective:
+        if True:
+            lf, call = chain[-1]
+            a = C.call_args(call)
+            if lf.name in ("SCPI_RegSetBits", "SCPI_RegClearBits") and reg is None:
                 # wrappers: register name is their own parameter; judged at their call sites
                 # (SetBits stores old|bits: can only raise)
                 continue
-            if f.name == "SCPI_RegSet":
+            if lf.name == "SCPI_RegSet":
                 continue
             lowering = True
             if call["callee"] == "SCPI_RegSet":
@@ -635,25 +670,33 @@ def rule_v3(ck, prog, S):
                             "%s clears %s; it is defined to clear only %s" % (f.name, regname.get(reg), allowed))
                 continue
             found.setdefault(f.name, []).append(call)
-            # must: every path of f passes through this clear
-            pg = S.pg(f)
-            reach = pg.reachable([pg.entry], blocked_edge=lambda e: e.kind == "elem" and e.node is call)
-            if pg.exit in reach and "*" not in allowed:
-                path = pg.find_path([pg.entry], lambda p: p == pg.exit,
-                                    blocked_edge=lambda e: e.kind == "elem" and e.node is call)
-                ck.violated("C12-V3", st, K.loc(f, call),
+            # must: every path of f passes through this clear (through every link of the helper chain)
+            skipped = None
+            for lfn, lcall in chain:
+                pgl = S.pg(lfn)
+                reach = pgl.reachable([pgl.entry], blocked_edge=lambda e, lcall=lcall: e.kind == "elem" and e.node is lcall)
+                if pgl.exit in reach and "*" not in allowed:
+                    skipped = (lfn, lcall, pgl)
+                    break
+            pg = S.pg(lf)
+            if skipped:
+                lfn, lcall, pgl = skipped
+                path = pgl.find_path([pgl.entry], lambda p: p == pgl.exit,
+                                     blocked_edge=lambda e: e.kind == "elem" and e.node is lcall)
+                ck.violated("C12-V3", st, K.loc(lfn, lcall),
                             "%s can return without clearing %s" % (f.name, regname.get(reg)),
-                            {"path": pg.describe_path(path or [])})
+                            {"path": pgl.describe_path(path or [])})
                 continue
             # queries: the result write precedes the clear and reads the same register
             if f.name.endswith("Q"):
                 before = pg.reachable([pg.entry], blocked_edge=lambda e: e.kind == "elem" and e.node is call)
-                res = [c for c in f.calls() if (c.get("callee") or "").startswith("SCPI_Result")]
+                res = [c for c in lf.calls() if (c.get("callee") or "").startswith("SCPI_Result")]
                 okq = False
                 for r in res:
                     ra = C.call_args(r)
                     inner = [x for x in r.walk() if x.k == "CallExpr" and x.get("callee") == "SCPI_RegGet"]
-                    if inner and C.const_of(C.call_args(inner[0])[1]) == reg:
+                    if inner and (C.const_of(C.call_args(inner[0])[1]) == reg if len(chain) == 1 else
+                                  C.call_args(inner[0])[1].strip_all_casts().src == a[1].strip_all_casts().src):
                         # the result call must be evaluated on every path before the clear
                         reach2 = pg.reachable([pg.entry], blocked_edge=lambda e: e.kind == "elem" and e.node is r)
                         if pg.before(call) not in reach2:
@@ -665,18 +708,18 @@ def rule_v3(ck, prog, S):
             if "*" in allowed:
                 # *CLS: loop over the group table clearing every event register except STB
                 okc = False
-                for atom, pol in (K.facts_at(S, f, call) or []):
+                for atom, pol in (K.facts_at(S, lf, call) or []):
                     if atom.k == "BinaryOperator" and atom.get("op") in ("!=", "==") and not isinstance(pol, tuple):
                         if C.const_of(atom.child(1)) == stb and ((atom["op"] == "!=") == pol):
                             okc = True
                 argp = a[1].strip_all_casts().get("path")
                 # the register cleared is the .event field of a row of the group table: directly, or through a local copy
                 src_ok = bool(argp) and argp.startswith("scpi_reg_group_details[") and argp.endswith(".event")
-                for dn in f.nodes.values():
+                for dn in lf.nodes.values():
                     if dn.k == "DeclStmt":
                         for dd in dn.get("decls", []):
                             if dd["name"] == argp and "init" in dd:
-                                ip = f.nodes[dd["init"]].strip_all_casts().get("path", "")
+                                ip = lf.nodes[dd["init"]].strip_all_casts().get("path", "")
                                 if ip.startswith("scpi_reg_group_details[") and ip.endswith(".event"):
                                     src_ok = True
                 val0 = C.const_of(a[2]) == 0
